@@ -89,7 +89,7 @@ def nontrivial(recipe, text):
 
 
 def run_case(sh, recipe, cfgs, origin):
-    value = V.build(recipe)
+    value = V.build(recipe, V.BuildEnv(share={}) if origin.endswith('-aliased') else None)
     cv = V.canon(value)
     for cfg in cfgs:
         text = check_one(sh, recipe, value, cfg, origin)
@@ -140,9 +140,16 @@ def run_shard(sh):
             continue
         rng = V.rng_for('c01b', sh.seed, i)
         recipe = V.rand_tree(rng)
+        origin = 'random'
+        if i % 5 == 3:
+            # the same container OBJECT at two places (a memo keyed by identity shows only then)
+            aliased = V.alias_recipe(recipe, rng)
+            if aliased is not None:
+                recipe, origin = aliased, 'random-aliased'
+                sh.counters['random trees with an aliased container'] += 1
         value = V.build(recipe)
         L = one_line_len(value)
-        run_case(sh, recipe, configs_for(rng, 4 if quick else 8, L), 'random')
+        run_case(sh, recipe, configs_for(rng, 4 if quick else 8, L), origin)
         sh.counters['random trees'] += 1
         if i % 1500 == 7:
             sh.sample({'recipe': recipe, 'origin': 'random'})
@@ -204,7 +211,7 @@ def replay(wit):
     from ..runner import Shard
     sh = Shard('replay', 0, 0, 1)
     case = wit['case']
-    value = V.build(case['recipe'])
+    value = V.build(case['recipe'], V.BuildEnv(share={}) if str(case.get('origin', '')).endswith('-aliased') else None)
     print('value  :', repr(value)[:500])
     print('config :', case['cfg'])
     text = check_one(sh, case['recipe'], value, case['cfg'], 'replay')
